@@ -460,6 +460,7 @@ def _collect(ctx: dict, sched: dict, status: str) -> dict:
             "bytes_in": driver.delivered,
             "bytes_out": sum(len(b) for _, b in ctx["writer"].writes),
             "error_responses": sum(1 for f in out_frames if "error" in f),
+            "out_frames_over_8k": sum(1 for _, n in driver.reader.raw_lengths if n > 8192),
             "escaped": bool(ctx.get("escaped")),
         },
         classes=oracles.response_classes(driver),
